@@ -38,6 +38,7 @@ type hsEvent struct {
 	Cancelled map[string]bool   `json:"cancelled"`
 	Stored    []int             `json:"stored"`
 	Cfg       string            `json:"cfg"`
+	HasInit   bool              `json:"hasInit"` // an Init call (the head moved down: a deletion) has happened in this walk
 }
 
 var hsSetters = []string{"S1", "S2", "S3"}
@@ -83,13 +84,15 @@ func hsWalk(t *testing.T, id int, rnd *rand.Rand, tw *mbt.Writer) {
 		store.VerifHook = hook
 		defer func() { store.VerifHook = nil }()
 		cfg := fmt.Sprintf("maxH=%d", maxH)
+		withInit := id%4 == 3 // every fourth walk: Init calls (what a head-side deletion or a wipe and re-init does to the heightSub)
+		hasInit := false
 		i := 0
 		emit := func(p, a string, x int) {
 			synctest.Wait()
 			mu.Lock()
 			defer mu.Unlock()
 			ev := hsEvent{Tr: id, I: i, P: p, A: a, X: x, Height: int(hs.Height()), Pcs: map[string]string{}, Res: map[string]string{},
-				Wants: map[string]int{}, Cancelled: map[string]bool{}, Stored: []int{}, Cfg: cfg}
+				Wants: map[string]int{}, Cancelled: map[string]bool{}, Stored: []int{}, Cfg: cfg, HasInit: hasInit}
 			i++
 			for _, s := range hsSetters {
 				switch {
@@ -174,6 +177,9 @@ func hsWalk(t *testing.T, id int, rnd *rand.Rand, tw *mbt.Writer) {
 				}
 			}
 			acts = append(acts, act{"notify", "N", 1 + rnd.Intn(maxH)})
+			if withInit && rnd.Intn(3) == 0 {
+				acts = append(acts, act{"init", "I", 1 + rnd.Intn(maxH)})
+			}
 			mu.Unlock()
 			a := acts[rnd.Intn(len(acts))]
 			switch a.kind {
@@ -233,6 +239,19 @@ func hsWalk(t *testing.T, id int, rnd *rand.Rand, tw *mbt.Writer) {
 				mu.Unlock()
 				c()
 				emit(a.p, "cancel", 0)
+			case "init":
+				mu.Lock()
+				hasInit = true
+				for h := range stored {
+					delete(stored, h)
+				}
+				for h := 1; h <= a.x; h++ {
+					stored[h] = true
+				}
+				mu.Unlock()
+				hs.Init(uint64(a.x))
+				hs.Notify(uint64(a.x)) // (see ICall in HeightSub.tla)
+				emit("I", "call", a.x)
 			case "notify":
 				mu.Lock()
 				stored[a.x] = true
